@@ -43,7 +43,8 @@ TREES_THOROUGH = TREES_QUICK + [
 def bound(tier):
     return dict(path_enumeration=[dict(kind=k, arch=a, max_k=K) for k, a, K in (TREES_QUICK if tier == "quick" else TREES_THOROUGH)],
                 scenarios=["sample(initial_state=v0) overwrite F/T", "gibbs_steps direct", "uniform random start",
-                           "two-row batch", "chain continued across two calls (overwrite=True)"],
+                           "two-row batch", "chain continued across two calls (overwrite=True)", "1-D start state",
+                           "start state = strided view of a wider array (sample / gibbs_steps)", "overwrite given as np.False_ / 0 / np.True_ / 1"],
                 conditionals=dict(binary="nv,nh<=4", purification="nv,nh<=4 (quick 3), na<=3", parameters="3 patterns + 1-deviations"),
                 deviation_bound=None)
 
@@ -105,14 +106,20 @@ def run_tree(acc, st, case, scenario, k, start_rows, overwrite, Tm):
     stats = T.Stats()
     flags = []
 
+    # the flag given as another Python / numpy truth value (the result of a numpy comparison, 0 / 1)
+    flag_forms = {"sample-npfalse": np.False_, "sample-zero": 0, "sample-nptrue": np.True_, "sample-one": 1}
+    ow_arg = flag_forms.get(scenario, overwrite)
+    if scenario in flag_forms:
+        overwrite = bool(ow_arg)
+
     def body(tape):
         dec = TapeDecider(tape)
         with Owned(dec) as own:
             body.env = own
-            if scenario == "sample":
+            if scenario == "sample" or scenario in flag_forms:
                 start = space[start_rows].clone()
                 keep = start.clone()
-                r = st.sample(k=k, initial_state=start, overwrite=overwrite)
+                r = st.sample(k=k, initial_state=start, overwrite=ow_arg)
             elif scenario == "gibbs":
                 start = space[start_rows].clone()
                 keep = start.clone()
@@ -236,6 +243,8 @@ def run_tree_item(acc, item):
         tree_case(acc, case, "sample-1d", min(K, 2), [s], False)
         tree_case(acc, case, "sample-1d", 1, [s], True)
         tree_case(acc, case, "sample-strided", 1, [s], True)
+        for sc_ in ("sample-npfalse", "sample-zero", "sample-nptrue", "sample-one"):
+            tree_case(acc, case, sc_, 1, [s], None)
         tree_case(acc, case, "gibbs-strided", 1, [s], True)
         tree_case(acc, case, "sample-strided", 1, [s], False)
         if K >= 2:
